@@ -61,6 +61,7 @@ class ClassInfo:
             elif isinstance(b, ast.Attribute):
                 self.base_names.append(b.attr)
         self.methods: dict[str, FuncInfo] = {}
+        self.setters: dict[str, FuncInfo] = {}      # property setters, by property name
         self.class_attrs: dict[str, ast.expr] = {}       # name -> value expr (class-level Assign)
         self.annotations: dict[str, ast.expr] = {}       # name -> annotation expr
         self.bases: list[ClassInfo] = []
@@ -111,14 +112,23 @@ class ClassInfo:
 
     @property
     def is_namedtuple(self) -> bool:
-        return any("NamedTuple" in c.base_names for c in self.mro())
+        """An immutable record: a NamedTuple, or a frozen dataclass with nothing of its own in construction."""
+        return any("NamedTuple" in c.base_names for c in self.mro()) or self.is_frozen_record
+
+    @property
+    def is_frozen_record(self) -> bool:
+        if not self.is_dataclass:
+            return False
+        frozen = any(isinstance(d, ast.Call) and any(k.arg == "frozen" and isinstance(k.value, ast.Constant) and k.value.value is True for k in d.keywords)
+                     for d in self.node.decorator_list)
+        return frozen and all(self.find_method(m) is None for m in ("__init__", "__post_init__", "__new__", "__setattr__", "__getattr__", "__bool__", "__len__"))
 
     def nt_fields(self) -> list:
-        """Field names of a NamedTuple class, in declaration order."""
+        """Field names of a record class (NamedTuple / frozen dataclass), in declaration order."""
         out = []
         for c in reversed(self.mro()):
             for k in c.annotations:
-                if k not in out:
+                if k not in out and "ClassVar" not in ast.unparse(c.annotations[k]):
                     out.append(k)
         return out
 
@@ -190,6 +200,10 @@ class PyFacts:
                 if isinstance(st, (ast.FunctionDef, ast.AsyncFunctionDef)):
                     fi = FuncInfo(m, c, st)
                     if fi.is_overload:
+                        continue
+                    if any(d in ("setter", "deleter") for d in fi.decorators) and st.name in c.methods and c.methods[st.name].is_property:
+                        # ``@name.setter``: the property keeps its getter; the setter runs where the attribute is assigned
+                        c.setters[st.name] = fi
                         continue
                     c.methods[st.name] = fi
                 elif isinstance(st, ast.Assign):
@@ -409,6 +423,8 @@ class PyFacts:
                 yield f
             for c in m.classes.values():
                 for f in c.methods.values():
+                    yield f
+                for f in c.setters.values():
                     yield f
 
 
